@@ -594,23 +594,31 @@ fn check_node(case: &NodeCase) -> CaseResult {
                     for b in &built {
                         let ok = b.must == Some(true);
                         expected = expected_after(&expected, b, ok);
-                        let reported = outcomes.iter().find(|o| o.0 == b.op.hash).map(|o| o.1);
-                        if !ok {
-                            ensure!(
-                                reported != Some(true),
-                                "step {si}: forged {} was reported as Processed",
-                                describe(b)
-                            );
-                            if b.hostile_prune_on_nonempty {
-                                nontrivial = true;
-                            }
-                        } else if b.op.body.is_some() {
-                            ensure!(
-                                reported == Some(true),
-                                "step {si}: honest {} was not reported as Processed ({reported:?})",
-                                describe(b)
-                            );
+                        if !ok && b.hostile_prune_on_nonempty {
+                            nontrivial = true;
                         }
+                    }
+                    // Reported outcomes, per operation id. A forged operation may carry the id of
+                    // a genuine one (class ForgedStoredId), so outcomes are compared as counts.
+                    let ids: std::collections::BTreeSet<Hash> = built.iter().map(|b| b.op.hash).collect();
+                    for id in ids {
+                        let honest_with_body = built.iter().filter(|b| b.op.hash == id && b.must == Some(true) && b.op.body.is_some()).count();
+                        let honest = built.iter().filter(|b| b.op.hash == id && b.must == Some(true)).count();
+                        let forged = built.iter().filter(|b| b.op.hash == id && b.must != Some(true)).count();
+                        let processed = outcomes.iter().filter(|o| o.0 == id && o.1).count();
+                        let failed = outcomes.iter().filter(|o| o.0 == id && !o.1).count();
+                        ensure!(
+                            processed <= honest,
+                            "step {si}: {processed} Processed events for operation id {id} but only {honest} genuine operation(s) with that id were imported ({forged} forged)"
+                        );
+                        ensure!(
+                            failed >= forged,
+                            "step {si}: {forged} forged operation(s) with id {id} were imported but only {failed} ProcessingFailed events were reported"
+                        );
+                        ensure!(
+                            processed >= honest_with_body,
+                            "step {si}: {honest_with_body} genuine operation(s) with a body and id {id} were imported but only {processed} were reported as Processed"
+                        );
                     }
                 }
                 NodeStep::Publish | NodeStep::Prune(_) => {
